@@ -54,50 +54,64 @@ Definition check_loads (c : loads_case) : bool := opt_jv_eqb (parse (lc_text c))
 Definition show_loads (c : loads_case) := parse (lc_text c).
 
 (* -------------------------------------------------------------------------------------------- *)
-(** Part "ext": the raw content of a DcmMetaExtension, the outcome of its check_valid(), and what
-    to_json(), str(), and every reload path produced.  [check_valid] is instantiated with the
-    implementation's own verdict on this content (the validity model is DV.Content's business): what
-    is tied here is that to_json = check_valid;print, str = print, from_json = parse;check_valid and
-    that every constructor gives back the same content and the same bytes. *)
+(** Part "ext": the content of a DcmMetaExtension (snapshot taken before any serialisation call; a separate
+    clause of the Python oracle holds it to the generator's truth), the outcome of check_valid(), and
+    what to_json(), str() and every reload path produced.
+    What C09 states and what is therefore compared: refusal as raised / not raised (no exception class);
+    the JSON text READS BACK to the content (the layout of the text is not pinned: the model parser accepts
+    any layout); str() is the same text as to_json(); every re-serialisation is byte-identical to that
+    text; every reloaded extension has that content; the extension bytes found in every file written
+    decode (UTF-8, JSON) to that content.
+    [check_valid] is instantiated with the implementation's verdict (the validity model is DV.Content's
+    business; the oracle holds that verdict to the format rules), [store] with the bytes found in the file. *)
 Record ext_case := {
-  ec_content : jv;                 (* ext._content as built by the implementation *)
-  ec_valid : res unit;             (* outcome of ext.check_valid() *)
-  ec_to_json : res str;            (* outcome of ext.to_json() *)
-  ec_str : str;                    (* str(ext) *)
-  ec_reser : list str              (* to_json() of the extension obtained through every reload path *)
+  ec_content : jv;
+  ec_valid : res unit;
+  ec_to_json : res str;
+  ec_str : option str;             (* None: str() raised *)
+  ec_reser : list str;             (* to_json() of the extension obtained through every reload path *)
+  ec_files : list (list N);        (* extension bytes found in every file written *)
+  ec_loaded : list jv              (* content of the extension obtained through every reload path *)
 }.
+
+Definition ok_agree {A B} (a : res A) (b : res B) : bool := Bool.eqb (is_ok a) (is_ok b).
 
 Definition check_ext (c : ext_case) : bool :=
   let cv := fun _ : jv => ec_valid c in
-  res_eqb str_eqb (to_json cv (ec_content c)) (ec_to_json c)
-  && res_eqb str_eqb (to_str (ec_content c)) (Ok (ec_str c))
+  let e := ec_content c in
+  ok_agree (to_json cv e) (ec_to_json c)
   && match ec_to_json c with
      | Ok t =>
-         wfb (ec_content c)   (* a serialisable content lies in the domain of the round-trip theorems *)
-         && res_eqb jv_eqb (from_json cv t) (Ok (ec_content c))
-         && res_eqb jv_eqb (from_runtime_repr cv (ec_content c)) (Ok (ec_content c))
-         && res_eqb jv_eqb (save_load cv (fun b => Some b) (ec_content c)) (Ok (ec_content c))
-         && forallb (fun t' => str_eqb t' (print (ec_content c))) (ec_reser c)
-     | Err _ => match ec_reser c with [] => true | _ => false end
+         wfb e   (* a serialisable content lies in the domain of the round-trip theorems *)
+         && res_eqb jv_eqb (from_json cv t) (Ok e)
+         && match ec_str c with Some s => str_eqb s t | None => false end
+         && res_eqb jv_eqb (from_runtime_repr cv e) (Ok e)
+         && forallb (str_eqb t) (ec_reser c)
+         && forallb (fun j => jv_eqb j e) (ec_loaded c)
+         && forallb (fun b => res_eqb jv_eqb (save_load cv (fun _ => Some b) e) (Ok e)) (ec_files c)
+     | Err _ => match ec_reser c, ec_files c with [], [] => true | _, _ => false end
      end.
 
 Definition show_ext (c : ext_case) :=
-  (wfb (ec_content c), to_json (fun _ => ec_valid c) (ec_content c), to_str (ec_content c),
-   match ec_to_json c with Ok t => parse t | Err _ => None end).
+  (wfb (ec_content c), to_json (fun _ => ec_valid c) (ec_content c),
+   match ec_to_json c with Ok t => parse t | Err _ => None end, map unmangle (ec_files c)).
 
 (* -------------------------------------------------------------------------------------------- *)
 (** Part "ext_hist": a live extension object that has already been encoded or written once (or that
-    came out of a file) is edited in place through the DcmMeta API and written again, possibly twice.
-    One [save_point] per write: the content of the in-memory object at that moment, what to_json()/str()
-    said, the raw extension bytes found in the file (read from the file's extension section, not through
-    the object), and the content of the extension that NiftiWrapper.from_filename found in that file.
-    The model runs HEdit;HSave;HLoad per point, starting from a cache that holds the previous encoding. *)
+    came out of a file) is edited in place through the DcmMeta API and written again, several times.
+    One [save_point] per write: the content of the in-memory object at that moment (snapshot before the
+    calls), what check_valid()/to_json()/str() did, the raw extension bytes found in the file (read from the
+    file's extension section, not through the object; None when the write was refused), and the content of
+    the extension that NiftiWrapper.from_filename found in that file.
+    The model runs HEdit;HSave;HLoad per point with [store] := the bytes found in the file, starting from a
+    cache that holds the previous encoding: a valid state must be written and the bytes in the file must
+    load (UTF-8, JSON, validity) to the current content; an invalid state must be refused. *)
 Record save_point := {
   sp_content : jv;
   sp_valid : res unit;
   sp_to_json : res str;
-  sp_str : str;
-  sp_file : option str;          (* None: the write was refused or failed *)
+  sp_str : option str;
+  sp_file : option (list N);
   sp_loaded : res jv
 }.
 
@@ -119,15 +133,25 @@ Fixpoint check_points (s : hstate) (ps : list save_point) : bool :=
   | [] => true
   | p :: r =>
     let cv := fun _ : jv => sp_valid p in
-    let s1 := fst (hstep cv ident_store s (HEdit (sp_content p))) in
-    let (s2, e2) := hstep cv ident_store s1 HSave in
-    let (s3, e3) := hstep cv ident_store s2 HLoad in
-    wfb (sp_content p)
-    && res_eqb str_eqb (to_json cv (sp_content p)) (sp_to_json p)
-    && res_eqb str_eqb (to_str (sp_content p)) (Ok (sp_str p))
-    && hevent_eqb e2 (match sp_file p with Some b => EvSaved b | None => EvRefused ECrash end)
-    && hevent_eqb e3 (EvLoaded (sp_loaded p))
-    && check_points s3 r
+    let st := fun _ : list N => sp_file p in
+    let e := sp_content p in
+    let s1 := fst (hstep cv st s (HEdit e)) in
+    let (s2, e2) := hstep cv st s1 HSave in
+    wfb e
+    && ok_agree (to_json cv e) (sp_to_json p)
+    && match sp_to_json p with
+       | Ok t => res_eqb jv_eqb (from_json cv t) (Ok e)
+                 && match sp_str p with Some x => str_eqb x t | None => false end
+       | Err _ => true
+       end
+    && Bool.eqb (is_ok (sp_valid p)) (match sp_file p with Some _ => true | None => false end)
+    && match e2 with
+       | EvSaved _ =>
+           let (s3, e3) := hstep cv st s2 HLoad in
+           hevent_eqb e3 (EvLoaded (sp_loaded p)) && res_eqb jv_eqb (sp_loaded p) (Ok e) && check_points s3 r
+       | EvRefused _ => check_points s2 r
+       | _ => false
+       end
   end.
 
 Definition check_hist (c : hist_case) : bool :=
@@ -136,4 +160,5 @@ Definition check_hist (c : hist_case) : bool :=
   match hc_points c with [] => false | _ :: _ => check_points s1 (hc_points c) end.
 
 Definition show_hist (c : hist_case) :=
-  map (fun p => (wfb (sp_content p), print (sp_content p))) (hc_points c).
+  map (fun p => (wfb (sp_content p), is_ok (sp_valid p), match sp_file p with Some b => unmangle b | None => None end))
+      (hc_points c).
